@@ -29,7 +29,7 @@ theorem sendAEToPeers_fields (n : Node) (now : Nat) :
 
 theorem sendAEToPeers_reads (n : Node) (now : Nat) :
     (n.sendAEToPeers now).1.readSeq = n.readSeq ∧
-    (n.sendAEToPeers now).1.aeRounds = (n.nextRound, 1, n.readSeq) :: n.aeRounds ∧
+    (n.sendAEToPeers now).1.aeRounds = (n.nextRound, n.selfCount, n.readSeq) :: n.aeRounds ∧
     (n.sendAEToPeers now).1.pendingReads =
       (if n.config.isSingle n.id then (n.tryApplyReadOnly now n.readSeq).1.pendingReads else n.pendingReads) := by
   unfold sendAEToPeers
